@@ -67,9 +67,10 @@ MUTANTS += [
     mut('c04-Signal.clear_cache-fa', ['C04', 'C06'], (SG, '        """Resets the dynamically calculated properties."""\n        self._cached_smooth_fa = False\n        self._cached_fa = False\n', '        """Resets the dynamically calculated properties."""\n        self._cached_smooth_fa = False\n')),
     mut('c04-Acc.clear_cache-smooth', ['C04'], (SG, "    def clear_cache(self):\n        self._cached_smooth_fa = False\n        self._cached_fa = False\n        self._cached_response_spectra = False", "    def clear_cache(self):\n        self._cached_fa = False\n        self._cached_response_spectra = False")),
     mut('c04-Acc.clear_cache-fa', ['C04', 'C06'], (SG, "    def clear_cache(self):\n        self._cached_smooth_fa = False\n        self._cached_fa = False\n        self._cached_response_spectra = False", "    def clear_cache(self):\n        self._cached_smooth_fa = False\n        self._cached_response_spectra = False")),
-    mut('c04-Acc.clear_cache-resp', ['C04', 'C02'], (SG, "        self._cached_response_spectra = False\n        self._cached_disp_and_velo = False\n        self.reset_all_motion_stats()", "        self._cached_disp_and_velo = False\n        self.reset_all_motion_stats()")),
-    mut('c04-Acc.clear_cache-veldisp', ['C04', 'C08'], (SG, "        self._cached_response_spectra = False\n        self._cached_disp_and_velo = False\n        self.reset_all_motion_stats()", "        self._cached_response_spectra = False\n        self.reset_all_motion_stats()")),
-    mut('c04-Acc.clear_cache-stats', ['C04', 'C08'], (SG, "        self._cached_disp_and_velo = False\n        self.reset_all_motion_stats()", "        self._cached_disp_and_velo = False")),
+    mut('c04-Acc.clear_cache-resp', ['C04', 'C02'], (SG, "        self._cached_response_spectra = False\n        self._cached_disp_and_velo = False\n        self.__dict__.pop", "        self._cached_disp_and_velo = False\n        self.__dict__.pop")),
+    mut('c04-Acc.clear_cache-veldisp', ['C04', 'C08'], (SG, "        self._cached_response_spectra = False\n        self._cached_disp_and_velo = False\n        self.__dict__.pop", "        self._cached_response_spectra = False\n        self.__dict__.pop")),
+    mut('c04-Acc.clear_cache-stats', ['C04', 'C08'], (SG, "  # Stockwell transform memoised by eqsig.stockwell\n        self.reset_all_motion_stats()", "  # Stockwell transform memoised by eqsig.stockwell")),
+    mut('c15-F38-regress-swtf-survives-mutation', ['C15'], (SG, "        self._cached_disp_and_velo = False\n        self.__dict__.pop(\"swtf\", None)  # Stockwell transform memoised by eqsig.stockwell\n", "        self._cached_disp_and_velo = False\n")),
     mut('c04-reset_all_motion_stats-params', ['C04', 'C08'], (SG, "        self.arias_intensity = 0.0\n        self._cached_params = {}", "        self.arias_intensity = 0.0")),
     mut('c04-remove_rolling_average-no-clear', ['C04'], (SG, "            self._values -= roll\n        self.clear_cache()", "            self._values -= roll")),
     mut('c04-rebase_displacement-no-clear', ['C04'], (SG, "        self._values -= acceleration_correction\n        self.clear_cache()", "        self._values -= acceleration_correction")),
@@ -82,7 +83,7 @@ MUTANTS += [
     mut('c04-pga-cached-across-add_constant', ['C04', 'C08'], (SG, "        self.reset_values(self.values + constant)", "        keep = dict(getattr(self, '_cached_params', {}))\n        self.reset_values(self.values + constant)\n        if 'pgv' in keep:\n            self._cached_params['pgv'] = keep['pgv']")),
 ]
 CONTROLS += [
-    mut('ctl-clear-cache-reordered', ['C04'], (SG, "        self._cached_response_spectra = False\n        self._cached_disp_and_velo = False\n        self.reset_all_motion_stats()", "        self._cached_disp_and_velo = False\n        self._cached_response_spectra = False\n        self.reset_all_motion_stats()"), control=True),
+    mut('ctl-clear-cache-reordered', ['C04'], (SG, "        self._cached_response_spectra = False\n        self._cached_disp_and_velo = False\n        self.__dict__.pop", "        self._cached_disp_and_velo = False\n        self._cached_response_spectra = False\n        self.__dict__.pop"), control=True),
 ]
 
 MUTANTS += [
@@ -127,4 +128,20 @@ MUTANTS += [
 ]
 CONTROLS += [
     mut('ctl-ctor-copy-true', ['C05', 'C08', 'C16'], (SG, "        self._values = np.array(values)\n        if self._values.dtype.kind in 'iub':  # integer counts", "        self._values = np.array(values, copy=True)\n        if self._values.dtype.kind in 'iub':  # integer counts"), control=True),
+]
+
+
+IM = 'eqsig/im.py'
+MUTANTS += [
+    # ---- regressions of the integer repairs (audit round) ----------------------------------------------------------------
+    mut('F27-regress-absmax-int', ['C03'], (SD, "    a = np.asarray(a, dtype=float)\n    amax = a.max(axis)", "    a = np.asarray(a)\n    amax = a.max(axis)")),
+    mut('F28-regress-integration-int', ['C08'], (DP, "    if acceleration.dtype.kind in 'iub':  # integer counts: a[i] + a[i-1] overflows narrow integer types\n        acceleration = acceleration.astype(float)\n", "")),
+    mut('F29-regress-signal-keeps-int', ['C17', 'C09', 'C10', 'C18'], (SG, "        if self._values.dtype.kind in 'iub':  # integer counts: never compute in a fixed-width integer type\n            self._values = self._values.astype(float)\n", "")),
+    mut('F30-regress-sigdurvals-int', ['C10'], (IM, "    cum_acc2 = np.cumsum(np.asarray(motion, dtype=float) ** 2)", "    cum_acc2 = np.cumsum(np.asarray(motion) ** 2)")),
+    mut('F31-regress-peakonly-int', ['C13'], (PC, "    # enforce array type\n    values = np.array(values, dtype=float)\n    # rebase to zero as first value", "    # enforce array type\n    values = np.array(values)\n    # rebase to zero as first value")),
+    mut('F33-regress-chfactor-int', ['C20'], ('eqsig/design_spectra.py', "        tt = float(period[i])\n", "        tt = period[i]\n")),
+    mut('F34-regress-interp2d-int', ['C20'], ('eqsig/fns/generic.py', "    x = np.asarray(x, dtype=float)\n    xf = np.asarray(xf, dtype=float)\n", "")),
+    mut('F35-regress-surface-int-travel-times', ['C19'], (SF, "    shifts = 2.0 * travel_times / asig.dt\n    max_shift = int(np.max(shifts))\n    up_wave = np.pad(asig.values, (0, max_shift), mode='constant', constant_values=0)\n    dshifted = np.arange(asig.npts + max_shift)[np.newaxis, :] - shifts[:, np.newaxis]  # TODO: not needed if shifts is scalar\n    down_waves = np.interp(dshifted, np.arange(asig.npts), asig.values, left=0, right=0)\n    if hasattr(up_red, '__len__'):\n        up_wave = up_wave[np.newaxis, :] * up_red[:, np.newaxis]  # 1d\n        down_waves *= down_red[:, np.newaxis]\n    else:\n        up_wave = up_wave * up_red  # 1d  # TODO: may need to increase dimensions here\n        down_waves *= down_red\n    if nodal:\n        acc_series = - down_waves + up_wave\n    else:\n        acc_series = down_waves + up_wave\n    velocity", "    shifts = 2 * travel_times / asig.dt\n    max_shift = int(np.max(shifts))\n    up_wave = np.pad(asig.values, (0, max_shift), mode='constant', constant_values=0)\n    dshifted = np.arange(asig.npts + max_shift)[np.newaxis, :] - shifts[:, np.newaxis]  # TODO: not needed if shifts is scalar\n    down_waves = np.interp(dshifted, np.arange(asig.npts), asig.values, left=0, right=0)\n    if hasattr(up_red, '__len__'):\n        up_wave = up_wave[np.newaxis, :] * up_red[:, np.newaxis]  # 1d\n        down_waves *= down_red[:, np.newaxis]\n    else:\n        up_wave = up_wave * up_red  # 1d  # TODO: may need to increase dimensions here\n        down_waves *= down_red\n    if nodal:\n        acc_series = - down_waves + up_wave\n    else:\n        acc_series = down_waves + up_wave\n    velocity")),
+    mut('F36-regress-calc_peak-int', ['C08'], (IM, "    \"\"\"Calculates the peak absolute response\"\"\"\n    return max(abs(float(min(motion))), float(max(motion)))\n\n\ndef calc_sir", "    \"\"\"Calculates the peak absolute response\"\"\"\n    return max(abs(min(motion)), max(motion))\n\n\ndef calc_sir")),
+    mut('F37-regress-smooth-int-abs', ['C07'], ('eqsig/fns/frequency.py', "np.abs(fa_spectrum * 1.0)[:, np.newaxis]", "abs(fa_spectrum)[:, np.newaxis]")),
 ]
